@@ -228,6 +228,7 @@ OtherRep(Rr, v, sh) ==
 Coefs == {<<GOne, GOne>>, <<GOne, <<-1, 0>>>>, <<<<2, 0>>, GI>>, <<<<0, -1>>, <<3, 0>>>>}
 Add(cf, v, n2) ==
     /\ Live /\ "add" \in Ops /\ R.known /\ mode = "raw" /\ ~Inf(R) /\ NL(R) >= 2 /\ cf \in Coefs
+    /\ ZeroQtotal(R)        \* both operands in the same charge sector (no charged operator was applied before)
     /\ LET R2 == OtherRep(R, v, v)
            P2 == Contract(R2)
            P1 == TAdd(TScale(GMul(cf[1], GInt(nrm)), psi), TScale(GMul(cf[2], GInt(n2)), P2))
@@ -260,7 +261,8 @@ EnlargeChi(v) ==
     /\ Live /\ "enlarge_chi" \in Ops /\ R.cons = "none" /\ mode = "raw" /\ ~Inf(R)
     /\ R' = Frame(R) /\ UNCHANGED <<psi, nrm, mode>>
     /\ last' = [op |-> "enlarge_chi", extra |-> [b \in 1..(NL(R) + 1) |-> IF b = 1 \/ b = NL(R) + 1 THEN 0 ELSE 1 + ((b + v) % 2)]]
-    /\ Step(last')
+    \* (terminal: the new bond values are exactly zero, further form conversions would divide by them)
+    /\ nops' = nops + 1 /\ phase' = "done" /\ Rec(last')
 
 \* compress_svd(trunc_par) (terminal): relation between the exact dense states and the REPORTED TruncationError:
 \* the sweep projects the state, so the fidelity F = |<psi|psi'>|^2 / (<psi|psi><psi'|psi'>) = prod_k (1 - eps_k) over
